@@ -3,21 +3,22 @@
    the Mechanism model; printed once they are MaxSteps long or the serve future resolved. *)
 EXTENDS MC_Shutdown, Sequences
 CONSTANT MaxSteps
-VARIABLE sched
+VARIABLES sched,
+          hold     \* the last environment step was applied without yielding to the server (nb): no system step before the next one
 \* the harness lets max_connection_age elapse for every connection accepted so far: Age(c) for all open c, composed
 AgeAll == /\ Aging /\ \E c \in Conns : conn[c] = "open"
           /\ conn' = [c \in Conns |-> IF conn[c] = "open" THEN "draining" ELSE conn[c]]
           /\ UNCHANGED <<sig, call, bcast, resolved, dropped, ended>>
-GInit == Init /\ sched = <<>>
-GEnv == \/ \E c \in Conns : Offer(c) /\ sched' = Append(sched, [op |-> "offer", c |-> c, k |-> 0])
-        \/ \E c \in Conns : ClientDrop(c) /\ sched' = Append(sched, [op |-> "drop", c |-> c, k |-> 0])
-        \/ \E k \in Calls : Send(k) /\ sched' = Append(sched, [op |-> "send", c |-> 0, k |-> k])
-        \/ \E k \in Calls : Release(k) /\ sched' = Append(sched, [op |-> "release", c |-> 0, k |-> k])
-        \/ Fire /\ sched' = Append(sched, [op |-> "fire", c |-> 0, k |-> 0])
-        \/ Len(sched) >= 4 /\ EndIncoming /\ sched' = Append(sched, [op |-> "end_incoming", c |-> 0, k |-> 0])
-        \/ AgeAll /\ sched' = Append(sched, [op |-> "age", c |-> 0, k |-> 0])
-GNext == (Len(sched) < MaxSteps /\ GEnv) \/ (Sys /\ UNCHANGED sched)
-GSpec == GInit /\ [][GNext]_<<vars, sched>>
+GInit == Init /\ sched = <<>> /\ hold = FALSE
+GEnv == \/ \E c \in Conns : Offer(c) /\ (\E nb \in BOOLEAN : hold' = nb /\ sched' = Append(sched, [op |-> "offer", c |-> c, k |-> 0, nb |-> nb]))
+        \/ \E c \in Conns : ClientDrop(c) /\ (\E nb \in BOOLEAN : hold' = nb /\ sched' = Append(sched, [op |-> "drop", c |-> c, k |-> 0, nb |-> nb]))
+        \/ \E k \in Calls : Send(k) /\ hold' = FALSE /\ sched' = Append(sched, [op |-> "send", c |-> 0, k |-> k, nb |-> FALSE])
+        \/ \E k \in Calls : Release(k) /\ (\E nb \in BOOLEAN : hold' = nb /\ sched' = Append(sched, [op |-> "release", c |-> 0, k |-> k, nb |-> nb]))
+        \/ Fire /\ (\E nb \in BOOLEAN : hold' = nb /\ sched' = Append(sched, [op |-> "fire", c |-> 0, k |-> 0, nb |-> nb]))
+        \/ Len(sched) >= 4 /\ EndIncoming /\ (\E nb \in BOOLEAN : hold' = nb /\ sched' = Append(sched, [op |-> "end_incoming", c |-> 0, k |-> 0, nb |-> nb]))
+        \/ AgeAll /\ hold' = FALSE /\ sched' = Append(sched, [op |-> "age", c |-> 0, k |-> 0, nb |-> FALSE])
+GNext == (Len(sched) < MaxSteps /\ GEnv) \/ (~hold /\ Sys /\ UNCHANGED <<sched, hold>>) \/ (hold /\ Len(sched) = MaxSteps /\ hold' = FALSE /\ UNCHANGED <<vars, sched>>)
+GSpec == GInit /\ [][GNext]_<<vars, sched, hold>>
 Export == (Len(sched) = MaxSteps \/ (resolved /\ Len(sched) >= 3)) =>
             PrintT(<<"SCRIPT", ToJson([steps |-> sched, calls |-> [k \in Calls |-> [k |-> k, c |-> ConnOf[k], items |-> Items[k]]]])>>)
 =============================================================================
